@@ -38,4 +38,9 @@ CHECKS.update({
 CHECKS.update({
  'C15': _c('Complete grids of lle(T, top_chemical, use_cache) over compositions x temperatures x solver methods x scale factors x top-chemical choices, and every history of 1-3 (thorough: 4) earlier calls from a 9-call alphabet followed by a probe executed with and without reuse and compared with a fresh stream; SLE grids over solutes x solvents x T x given/computed solubility preceded by 0-2 earlier calls; activity equality evaluated independently with thermo.Gamma.', 'DESIGN.md section 3, C15 and 3b'),
 })
+
+CHECKS.update({
+ 'C11': _c('Explicit-state BFS over interleavings of view reads/writes (mol, mass, vol, imass, ivol, set_flow, set_total_flow, F_* setters in eight units of measure, constructor units) with changes of T, P, phase, phases, link_with (flag subsets), unlink, copy_like, property-package reset and empty; after every action mass == mol*MW, vol == mol*V_i(phase,T,P) re-evaluated afresh, totals, unit round trips with conversion constants hard-coded in the harness, DimensionError on wrong dimensions.', 'DESIGN.md section 3, C11'),
+ 'C14': _c('Explicit-state BFS over interleavings of property reads (18 properties) on a stream, its proxy, a linked stream and a phase view with every public mutator (incl. A->B->A restorations that defeat a key-based memo); the memo and its key are part of the canonical state; every read is compared with a freshly created stream with the same flows, phases, T, P (rtol 1e-12).', 'DESIGN.md section 3, C14'),
+})
 NOT_APPLICABLE = {k: v for k, v in NOT_APPLICABLE.items() if k not in CHECKS}
